@@ -11,6 +11,7 @@ for d in sorted(glob.glob(os.path.join(HERE, 'seeded', '*'))):
     for tier in ('quick', 'thorough'):
         p = os.path.join(d, 'result_%s.json' % tier)
         if os.path.exists(p): res[tier] = json.load(open(p))
+        elif tier == 'thorough' and os.path.exists(os.path.join(d, 'result_thorough_partial.json')): res[tier] = json.load(open(os.path.join(d, 'result_thorough_partial.json')))
     def cell(tier):
         r = res.get(tier)
         if not r: return 'not run'
@@ -23,7 +24,10 @@ for d in sorted(glob.glob(os.path.join(HERE, 'seeded', '*'))):
             return 'CAUGHT%s (%s)' % (' +native replay' if r.get('replayed_natively') else '', '; '.join(obl[:2]))
         und = any(x['exit'] == 2 for x in r['runs'])
         return 'undecided (exit 2)' if und else 'missed (exit 0)'
-    rows.append('| `%s` | %s | %s | %s | %s |' % (name, m['property'], m['needs_to_manifest'].replace('|', '/'), cell('quick'), m.get('why_missed', '') if not (res.get('quick') or {}).get('detected') else ''))
+    why = m.get('why_missed', '') if not (res.get('quick') or {}).get('detected') else ''
+    if 'thorough' in res and not (res.get('quick') or {}).get('detected'):
+        why = ('thorough tier: ' + cell('thorough') + '. ' + why).strip()
+    rows.append('| `%s` | %s | %s | %s | %s |' % (name, m['property'], m['needs_to_manifest'].replace('|', '/'), cell('quick'), why))
 tbl = ['### 9.5 Seeded changes and which check catches them', '',
        'Every change below was written by an independent sub-agent that saw only the property text and a scratch worktree, and was confirmed with',
        '`tools/confirm_seeded.sh` (builds, the whole ctest suite passes with it, its demonstration fails with it and passes without it).',
